@@ -38,7 +38,8 @@ RULE = ("Streams are built by an independent RFC 8323 framer from message sequen
         "cuts. A case is non-trivial when the connection did something beyond its initial CSM; "
         "distinct by (max size, chunk list).")
 TRUSTED = ["fake asyncio.Transport and recording token manager (harness/c15_sim.py); "
-           "asyncio is represented by: no data_received after close(), connection_lost(None) after close()"]
+           "asyncio is represented by: is_closing() is true after close(), no data_received after close(), "
+           "connection_lost(None) after close()"]
 ASSUMPTIONS = ["bytes are delivered in order and unmodified (TCP); only the segmentation varies",
                "option delta/length 65804 in *outgoing* messages is out of model (C01's off-by-one in "
                "_write_extended_field_value)"]
@@ -421,6 +422,13 @@ def exhaustive_sessions(env):
         CSM0 + b"\x00\xe6" + ping + get1,                 # unknown signalling code, then Ping and request
         CSM0 + rel + ping + get1,                          # Release, then Ping and request
         CSM0 + b"\x10\xe2\x10" + b"\x10\xe3\x10",         # two offending messages
+        # (well-formed streams, so that sessions ending in an Abort stay below one half)
+        o_frame(225, b"", o_body([(2, b"\x04\x00"), (4, b"")], b"")) + get1 + ping,
+        CSM0 + o_frame(227, b"\x07", b"") + get1 + empty + ping,
+        CSM0 + ping + o_frame(226, b"\x01\x02", b"") + get1,
+        CSM0 + o_frame(225, b"", o_body([(4, b"")], b"")) + resp,
+        CSM0 + o_frame(1, b"", o_body([(11, b"a")], b"")) + resp,
+        CSM0 + o_frame(226, b"", o_body([(2, b"e")], b"")) + get1 + get1,      # elective option on a Ping
     ]
     cases = []
     global N_EXHAUSTIVE
